@@ -83,7 +83,7 @@ def process_signature(app, what, name, obj, options,
         # imported under typing.TYPE_CHECKING only
         return sig, return_annotation
     ret_annot = sig.return_annotation
-    if ret_annot != sig.empty:
+    if ret_annot is not sig.empty:
         sret_annot = '{0!r}'.format(ret_annot)
         sig = sig.replace(return_annotation=sig.empty)
     else:
